@@ -181,7 +181,7 @@ impl Prop for C01 {
     fn rule(&self) -> String {
         "(a) every published key code x 8 modifier patterns, from idle and from a one-character composition, each followed by one of {finish, commit, ctrl-backspace, backspace}, under a pairwise-covering set of the 11 options (quick) / all 2048 option masks (thorough) x 3 layouts, options switched with update_engine on the idle context; \
          (b) every history of length <= 3 (quick) / 4 (thorough) over a 16-event alphabet per method (keypad Enter/Equals, reph key, vowel sign, hasanta, unassigned key, : ) ` \\, backspace, ctrl-backspace, commit of the highlighted index, commit of another index, finish) under 5 corner configurations, \
-         the learned-selection file persisting across histories; (c) random histories of <= 64 events over all 111 keys with arbitrary modifier and selection bytes, commits inside the list on screen, update_engine (any layout/options) while idle and context restarts over the same user directory; \
+         the learned-selection file persisting across histories; (b2) on the synthetic layout every history of length <= 5 (4 with suggestions on) over a reduced 9-event alphabet with every composition helper on; (c) random histories of <= 64 events over all 111 keys with arbitrary modifier and selection bytes, commits inside the list on screen, update_engine (any layout/options) while idle and context restarts over the same user directory; \
          (e) every ordered pair of the 111 published keys followed by a third key, a backspace, the second key again and a commit or finish, under two corner configurations per layout; (d) long compositions: one letter / one Avro pattern repeated to 256 characters with suggestions on (20 s CPU budget per call) and to 2300 characters (thorough; 120 s budget). \
          distinct_nontrivial = distinct (configuration, event kind, rendered result) triples observed."
             .into()
@@ -305,6 +305,49 @@ impl Prop for C01 {
                         }
                     }
                     out.distinct(fnv_str(&["b", &spec.short(), &first.to_string()]));
+                }
+            }
+        }
+
+        // ---- (b2) synthetic layout: every history of length <= 5 over a reduced 9-event alphabet (consonant, hasanta, ASCII comma,
+        // reph key, left-standing sign, ZWNJ, zo-fola, chandrabindu, backspace) with every composition helper on
+        if let Ok(lo) = LayoutOracle::load(Lay::Verif) {
+            let mut alpha: Vec<Ev> = vec![Ev::Bs];
+            for val in ["ক", "\u{09CD}", ",", "\u{09B0}\u{09CD}", "ি", "\u{200C}", "\u{09CD}\u{09AF}", "\u{0981}"] {
+                if let Some((k, m)) = lo.key_for_value(val) {
+                    alpha.push(Ev::Key(k, m, 0xFF));
+                }
+            }
+            let n = alpha.len();
+            let helpers = O_VOWEL | O_CHANDRA | O_TKAR | O_REPH | O_NUMPAD;
+            for spec in [CfgSpec::new(Lay::Verif, helpers), CfgSpec::new(Lay::Verif, helpers | O_KARORDER), CfgSpec::new(Lay::Verif, helpers | O_FSUGG | O_ENG | O_SQ)] {
+                let len = if spec.has(O_FSUGG) { 4 } else { 5 };
+                for first in 0..n {
+                    let mine = env.mine(item);
+                    item += 1;
+                    if !mine {
+                        continue;
+                    }
+                    let Ok(mut ex) = Exec::new(spec, &root) else { continue };
+                    t.contexts += 1;
+                    let mut idx = vec![0usize; len];
+                    idx[0] = first;
+                    loop {
+                        let mut evs: Vec<Ev> = idx.iter().map(|&i| alpha[i].clone()).collect();
+                        evs.push(Ev::Finish);
+                        out.begin_case(|| trace_json(&spec, &nofiles, &evs));
+                        run_events(&mut ex, &nofiles, &evs, BUDGET_MS, out, &mut t);
+                        if ex.dead {
+                            match Exec::new(spec, &root) {
+                                Ok(e) => ex = e,
+                                Err(_) => break,
+                            }
+                        }
+                        if !crate::fixedkit::next_seq(&mut idx, n) {
+                            break;
+                        }
+                    }
+                    out.distinct(fnv_str(&["b2", &spec.short(), &first.to_string()]));
                 }
             }
         }
